@@ -595,9 +595,9 @@ pub fn main(args: &Args) -> ! {
                         Some((sig, _)) if sig.starts_with("http/no-reply") => {
                             if unanswered.fetch_add(1, Ordering::Relaxed) >= 8 && stopped.load(Ordering::Relaxed) == 0 {
                                 let addr = SocketAddr::new(IpAddr::V4(Ipv4Addr::LOCALHOST), trk.child.port);
-                                if !http_alive(addr, ns) && !http_alive(addr, ns + 1) && stopped.swap(1, Ordering::Relaxed) == 0 {
+                                if !http_alive(addr, ns) && !http_alive(addr, ns + 1) && !http_alive(addr, ns + 2) && !http_alive(addr, ns + 3) && stopped.swap(1, Ordering::Relaxed) == 0 {
                                     let threads = proc_thread_states(trk.child.child.id());
-                                    viols.lock().unwrap().push(("http/tracker-stopped-answering".to_string(), format!("{}: after {} consecutive unanswered requests the tracker does not answer a plain announce on a fresh connection either (twice, 5 s each); process alive, threads: {:?}", trk.label, unanswered.load(Ordering::Relaxed), threads), json!({"path": path, "socket_workers": sw, "swarm_workers": wm, "keep_alive": ka, "max_scrape": ms, "conn_worker": pl.conn_worker, "torrent_worker": pl.torrent_worker})));
+                                    viols.lock().unwrap().push(("http/tracker-stopped-answering".to_string(), format!("{}: after {} consecutive unanswered requests the tracker does not answer a plain announce on a fresh connection either (four attempts, 5 s each); process alive, threads: {:?}", trk.label, unanswered.load(Ordering::Relaxed), threads), json!({"path": path, "socket_workers": sw, "swarm_workers": wm, "keep_alive": ka, "max_scrape": ms, "conn_worker": pl.conn_worker, "torrent_worker": pl.torrent_worker})));
                                 }
                             }
                         }
